@@ -439,9 +439,14 @@ do_notes(kdump_ctx_t *ctx, void *data, size_t size, do_note_fn *do_note)
 
 	while (ret == KDUMP_OK && size >= sizeof(Elf32_Nhdr)) {
 		char *name, *desc;
-		Elf32_Word namesz = dump32toh(ctx, hdr->n_namesz);
-		Elf32_Word descsz = dump32toh(ctx, hdr->n_descsz);
-		Elf32_Word type = dump32toh(ctx, hdr->n_type);
+		Elf32_Nhdr nhdr;
+		Elf32_Word namesz, descsz, type;
+
+		/* Notes may start at any file offset. */
+		memcpy(&nhdr, hdr, sizeof nhdr);
+		namesz = dump32toh(ctx, nhdr.n_namesz);
+		descsz = dump32toh(ctx, nhdr.n_descsz);
+		type = dump32toh(ctx, nhdr.n_type);
 		size_t descoff = sizeof(Elf32_Nhdr) + roundup_size(namesz);
 
 		if (size < descoff + descsz)
